@@ -7,6 +7,9 @@ Cases
              exception-extractor fields, traceback) x every single-point deviation (a declared key removed, an undeclared
              key added, a value replaced by a rejected one, a value replaced by one that does not encode to JSON, a non-str
              key) plus random multi-point ones
+  api      : the declared MessageType used through every documented spelling (MT.log(**f), inside an action, MT(**f).write(),
+             .write(logger), .write(action=a)) with conforming keyword arguments and with each single deviation; validate() and
+             check_for_errors on the receiving MemoryLogger
   logger   : sequences of such messages written to a real MemoryLogger: _failed_validations, tracebackMessages,
              validate(), check_for_errors()
   ops      : histories of one MemoryLogger: writes interleaved with validate() / check_for_errors / reset() (half of them
@@ -424,6 +427,63 @@ def use_types(mt_name, at_name, mfields, sfields, ofields, vals, extracted, cbs)
     return logger, MT, AT
 
 
+SPELLINGS = ["log", "log-in-action", "call-write", "call-write-logger", "call-write-action"]
+
+
+def api_write(mt_name, mfields, fields, spelling, cbs):
+    """write one message of a declared MessageType through one of the documented spellings; -> observation"""
+    from eliot import MessageType, MemoryLogger, start_action
+    from eliot.testing import swap_logger, check_for_errors
+
+    MT = MessageType(mt_name, [real_field(f, cbs) for f in mfields], "")
+    logger, other = MemoryLogger(), MemoryLogger()
+    prev = swap_logger(logger)
+    try:
+        def go():
+            if spelling == "log":
+                MT.log(**fields)
+            elif spelling == "log-in-action":
+                with start_action(action_type="ctx"):
+                    MT.log(**fields)
+            elif spelling == "call-write":
+                MT(**fields).write()
+            elif spelling == "call-write-logger":
+                MT(**fields).write(other)
+            else:
+                with start_action(action_type="ctx") as act:
+                    MT(**fields).write(action=act)
+
+        wrote = outcome(go)
+    finally:
+        swap_logger(prev)
+    target = other if spelling == "call-write-logger" else logger
+    mine = [dict(m) for m in target.messages if m.get("message_type") == mt_name]
+    return dict(wrote=wrote, logged=mine[0] if len(mine) == 1 else None, count=len(mine), failed=len(target._failed_validations),
+                validate=outcome(target.validate), check=outcome(lambda: check_for_errors(target)))
+
+
+def api_variants(rng, mfields, vals, cbs):
+    """(tag, fields): the conforming keyword arguments and single deviations of them"""
+    out = [("conforming", dict(vals))]
+    pool = value_pool()
+    for f in mfields:
+        d = dict(vals)
+        del d[f["key"]]
+        out.append(("missing", d))
+        rej = [v for v in pool if not field_accepts(f, v, cbs)]
+        if rej:
+            d = dict(vals)
+            d[f["key"]] = rng.choice(rej)
+            out.append(("rejected-value", d))
+    d = dict(vals)
+    d["zz_extra"] = 1
+    out.append(("extra", d))
+    d = dict(vals)
+    d["zz_obj"] = Opaque()
+    out.append(("not-json", d))
+    return out
+
+
 def produce(rng, cbs, reg, idx=0):
     """Build real types from a generated definition, use them correctly, and return the captured
     (message, real serializer, spec) triples plus the type-level facts."""
@@ -472,6 +532,7 @@ def produce(rng, cbs, reg, idx=0):
         case=dict(kind="types", message_type=mt_name, fields=[field_json(f, reg) for f in mfields], action_type=at_name,
                   start=[field_json(f, reg) for f in sfields], success=[field_json(f, reg) for f in ofields]))
     ok = outcome(logger.validate)
+    types["defn"] = dict(mt_name=mt_name, mfields=mfields, vals=vals[0])
     types["produce_case"] = dict(kind="produce", message_type=mt_name, action_type=at_name, fields=types["case"]["fields"],
                                  start=types["case"]["start"], success=types["case"]["success"], extracted=extracted,
                                  vals=[{k: enc_val(v, reg) for k, v in d.items()} for d in vals])
@@ -576,6 +637,26 @@ def real_ops(ops):
             w2 = outcome(lambda: l.write(dict(m), serobj))
             w = w if w2 == "ok" else w2
     return {"results": results, "failed": len(l._failed_validations), "tracebacks": len(l.tracebackMessages), "stored": len(l.messages), "write": w}
+
+
+def oracle_api(ctx, ac, obs, spec, cbs, logged):
+    what = "message type %r written as %s with %r" % (ac["message_type"], ac["spelling"], {k: v for k, v in logged.items() if k not in RESERVED})
+    if obs["wrote"] != "ok":
+        ctx.violation("logging raised %s into the application: %s" % (obs["wrote"], what), ac, key=None)
+        return
+    if obs["count"] != 1:
+        ctx.violation("%d messages of the type reached the logger instead of one: %s" % (obs["count"], what), ac, key=None)
+        return
+    want = rule_accepts(spec, logged, cbs, "mem")
+    for call in ("validate", "check"):
+        if (obs[call] == "ok") != want:
+            ctx.violation("%s %s although the message %s its declared type: %s" % (
+                "MemoryLogger.validate()" if call == "validate" else "check_for_errors", "passes" if obs[call] == "ok" else "raises " + obs[call],
+                "matches" if want else "breaks", what), ac, key=None)
+            return
+    if (obs["failed"] == 0) != want:
+        ctx.violation("%d validation failures recorded at write time although the message %s its declared type: %s" % (
+            obs["failed"], "matches" if want else "breaks", what), ac, key=None)
 
 
 def gen_ops(rng, all_msgs):
@@ -767,6 +848,17 @@ def run(ctx):
             cases.append(dict(kind="logger", env=env, writes=[dict(ser=spec_json(sp, reg), msg=enc_msg(m2, reg), tb=(sp == "traceback"))
                                                                for _, m2, _, sp in ws]))
             metas.append(("logger", dict(ws=ws, cbs=cbs)))
+        # the declared MessageType used through every documented spelling, with conforming and deviating keyword arguments
+        dn = types["defn"]
+        mspec = {"message_type": dn["mt_name"], "fields": dn["mfields"]}
+        for tag, fields in api_variants(rng, dn["mfields"], dn["vals"], cbs):
+            for spelling in SPELLINGS:
+                api_case = dict(kind="api", env=env, message_type=dn["mt_name"], fields=[field_json(f, reg) for f in dn["mfields"]],
+                                values={k: enc_val(v, reg) for k, v in fields.items()}, spelling=spelling)
+                obs = api_write(dn["mt_name"], dn["mfields"], fields, spelling, cbs)
+                logged = obs["logged"] if obs["logged"] is not None else dict(fields, message_type=dn["mt_name"])
+                cases.append(dict(kind="validate", env=env, ser=spec_json(mspec, reg), msg=enc_msg(logged, reg)))
+                metas.append(("api", dict(api_case=api_case, obs=obs, tag=tag, spec=mspec, cbs=cbs, logged=logged)))
         for _ in range(ctx.budget(6, 6)):
             ops = gen_ops(rng, all_msgs)
             cases.append(dict(kind="ops", env=env, ops=[o if isinstance(o, str) else
@@ -796,6 +888,15 @@ def run(ctx):
     for c, (kind, meta), mo in zip(cases, metas, model):
         if "bad" in mo:
             ctx.broken_tie(name, "driver rejected the case: %s" % mo["bad"], c)
+            continue
+        if kind == "api":
+            ac, obs, tag = meta["api_case"], meta["obs"], meta["tag"]
+            ctx.case(ac, nontrivial=tag != "conforming", tags=["kind:api", "spelling:" + ac["spelling"], "deviation:" + tag])
+            if obs["validate"] != mo["mem"]:
+                ctx.broken_tie(name, "validate() after writing through the API differs from the model", dict(case=ac, real=obs, model=mo))
+            else:
+                ctx.traces += 1
+            oracle_api(ctx, ac, obs, meta["spec"], meta["cbs"], meta["logged"])
             continue
         if kind == "types":
             real = {k: {"allowExtra": v[0], "keys": v[1]} for k, v in meta["real"].items()}
@@ -967,6 +1068,14 @@ def replay(ctx, obj):
         print(real, real2)
         if not (real["restored"] and real2["restored"]) and ("captured" in c["test"] or not has_swaps(c["test"])):
             ctx.violation("the default logger after a capture_logging test is not the one before it", c, key=None)
+    elif c.get("kind") == "api":
+        cbs, ser_of = rebuild(c, reg)
+        mfields = [dict(f, value=dec_val(f["value"])) if f["t"] == "value" else dict(f) for f in c["fields"]]
+        fields = {k: dec_val(v) for k, v in c["values"].items()}
+        obs = api_write(c["message_type"], mfields, fields, c["spelling"], cbs)
+        print(obs)
+        logged = obs["logged"] if obs["logged"] is not None else dict(fields, message_type=c["message_type"])
+        oracle_api(ctx, c, obs, {"message_type": c["message_type"], "fields": mfields}, cbs, logged)
     elif c.get("kind") == "produce" and "env" in c:
         cbs, ser_of = rebuild(c, reg)
         fl = lambda fs: [dict(f, value=dec_val(f["value"])) if f["t"] == "value" else dict(f) for f in fs]  # noqa
